@@ -227,7 +227,14 @@ impl ConstructibleDb {
                     computation_db,
                     framework_items_db,
                 ) else {
-                    if let Some(user_component_id) = component_db.user_component_id(component_id) {
+                    // A constructor obtained by specialising a generic one isn't a user component:
+                    // point at the constructor the user registered.
+                    let reported_id = component_db.user_component_id(component_id).or_else(|| {
+                        component_db
+                            .derived_from(&component_id)
+                            .and_then(|root_id| component_db.user_component_id(root_id))
+                    });
+                    if let Some(user_component_id) = reported_id {
                         self.missing_constructor(
                             user_component_id,
                             component_db.user_db(),
@@ -1000,6 +1007,12 @@ impl ConstructiblesInScope {
         if let Some(output) = self.get(type_) {
             return Some(output);
         }
+        // Specialising a generic constructor can require an input that is a bigger instance of
+        // the same template (`fn f<T>(x: Opt<V<T>>) -> Opt<T>`): without a bound on the nesting
+        // of the type we are asked for, the search never ends.
+        if nesting_depth(type_) > MAX_TYPE_NESTING_FOR_BINDING {
+            return None;
+        }
         let matched = self
             .templated
             .iter()
@@ -1130,4 +1143,38 @@ impl std::fmt::Debug for ConstructiblesInScope {
         }
         Ok(())
     }
+}
+
+/// Generic constructors are not specialised for types nested deeper than this
+/// (it mirrors `rustc`'s default recursion limit).
+const MAX_TYPE_NESTING_FOR_BINDING: usize = 128;
+
+/// How deeply are types nested inside `t`? E.g. 1 for `u8`, 3 for `Option<Vec<u8>>`.
+fn nesting_depth(t: &Type) -> usize {
+    use crate::language::GenericArgument;
+    let inner = match t {
+        Type::Path(p) | Type::TypeAlias(p) => p
+            .generic_arguments
+            .iter()
+            .filter_map(|a| match a {
+                GenericArgument::TypeParameter(t) => Some(nesting_depth(t)),
+                _ => None,
+            })
+            .max()
+            .unwrap_or(0),
+        Type::Reference(r) => nesting_depth(&r.inner),
+        Type::Tuple(t) => t.elements.iter().map(nesting_depth).max().unwrap_or(0),
+        Type::Slice(s) => nesting_depth(&s.element_type),
+        Type::Array(a) => nesting_depth(&a.element_type),
+        Type::RawPointer(r) => nesting_depth(&r.inner),
+        Type::FunctionPointer(fp) => fp
+            .inputs
+            .iter()
+            .map(|i| nesting_depth(&i.type_))
+            .chain(fp.output.iter().map(|o| nesting_depth(o)))
+            .max()
+            .unwrap_or(0),
+        Type::ScalarPrimitive(_) | Type::Generic(_) => 0,
+    };
+    inner + 1
 }
